@@ -244,7 +244,7 @@ Definition audit_table : list (string * string * nat * string * list string) := 
   ("x/basket.ApplyCreateBasketProposalHandler.Apply", "assert", 1%nat, "proposal content assertion inside its own handler: the router dispatches on ProposalType() of the same content, so the dynamic type matches", ["1a579e954e025b65"]);
   ("x/basket.ApplyEditBasketProposalHandler.Apply", "assert", 1%nat, "proposal content assertion inside its own handler: the router dispatches on ProposalType() of the same content, so the dynamic type matches", ["70191482707df230"]);
   ("x/basket/keeper.Keeper.AfterSlashStakingPool", "sub", 1%nat, "sdk.Int / time subtraction or Coins.Sub guarded by an error-returning balance check before it", ["8376b1e3fbd41765"]);
-  ("x/basket/keeper.Keeper.CreateBasket", "index", 2%nat, "map lookup or index bounded by the enclosing loop / length check", ["b24b0406144f9784"]);
+  ("x/basket/keeper.Keeper.CreateBasket", "index", 2%nat, "map lookup or index bounded by the enclosing loop / length check", ["41809b3693e08f12"]);
   ("x/basket/keeper.Keeper.EditBasket", "index", 6%nat, "map lookup or index bounded by the enclosing loop / length check", ["847a92afc23028ca"]);
   ("x/basket/keeper.Keeper.GetAllBaskets", "must", 1%nat, "decodes bytes (or re-parses an address) that this module stored itself with the matching Marshal -- audited by kind", ["f5c392dbc365b3cb"]);
   ("x/basket/keeper.Keeper.GetBasketById", "must", 1%nat, "decodes bytes (or re-parses an address) that this module stored itself with the matching Marshal -- audited by kind", ["a54a82276f615667"]);
